@@ -4,9 +4,10 @@ operations gf2From / gf2To / gf2Add3 / gf2Neg2 / gf2Inv / gf2Div as gf2Create in
 (models: ModelPpModOps.lean; lemmas: LemmasPpModOps.lean).  Word size B_PER_W ∈ {16, 32, 64}
 where the word-level multiplication / division is involved.
 
-Partial: `ppMinPolyModV_partial` — the result is ModelGf2's `ppMinPolyV` of the computed sequence
-and inherits its key-equation characterisation; NOT proved: bit i of that sequence is the constant
-term of a^{2l − i} mod mod (a loop invariant of `ppMinPolySeq`).
+ppMinPolyMod: `ppMinPolyModV_spec` (full: the sequence is `ppSeqBits`, bit j = constant term of
+a^{2l − j} mod mod — `ppMinPolyModV_seq_pow` —, result = ppMinPolyV of it with the complete
+characterisation incl. minimality).  `ppMinPolyModV_partial` is the earlier intermediate result
+(kept: audited name).
 -/
 import Bee2V.C05.LemmasPpModOps
 import Bee2V.C05.PropsGf2
@@ -99,5 +100,50 @@ theorem ppMinPolyModV_partial (a md : Nat) (hl : 1 ≤ md.log2) :
   exact ⟨h1, h2, h3⟩
 
 example : ppMinPolyModV 0b110 0b10011 = 0b111 := by decide +kernel
+
+
+/-- ppMinPolyMod at full strength (deg mod = l ≥ 1).  The sequence handed to ppMinPoly is
+    `ppSeqBits a md l (2l)`: it has 2l bits and bit j is the constant term of the (2l − 1 − j)-fold
+    iterate of t ↦ t·a mod md started at a (for a reduced: of a^{2l−j} mod md, see
+    `ppMinPolyModV_seq_pow`).  The result is ModelGf2's `ppMinPolyV` of that sequence, with its
+    complete characterisation: non-zero, degree ≤ l, key equation, and minimality. -/
+theorem ppMinPolyModV_spec (a md : Nat) (hl : 1 ≤ md.log2) :
+    ppMinPolyModV a md = ppMinPolyV (ppSeqBits a md md.log2 (2 * md.log2)) md.log2
+    ∧ ppSeqBits a md md.log2 (2 * md.log2) < 2 ^ (2 * md.log2)
+    ∧ (∀ j, j < 2 * md.log2 → (ppSeqBits a md md.log2 (2 * md.log2)).testBit j
+          = decide (ppIter a md (2 * md.log2 - 1 - j) a % 2 = 1))
+    ∧ ppMinPolyModV a md ≠ 0 ∧ (ppMinPolyModV a md).log2 ≤ md.log2
+    ∧ clmul (ppMinPolyModV a md) (ppSeqBits a md md.log2 (2 * md.log2)) % 2 ^ (2 * md.log2) < 2 ^ md.log2
+    ∧ ∀ g r k, g ≠ 0 → g.log2 ≤ md.log2 → r < 2 ^ md.log2 →
+        clmul g (ppSeqBits a md md.log2 (2 * md.log2)) ^^^ r = clmul k (2 ^ (2 * md.log2)) →
+        (∃ h', g = clmul h' (ppMinPolyModV a md)) ∧ (ppMinPolyModV a md).log2 ≤ g.log2 := by
+  have hlt := ppSeqBits_lt a md md.log2 (2 * md.log2)
+  have hmod : ppSeqBits a md md.log2 (2 * md.log2) % 2 ^ (2 * md.log2)
+      = ppSeqBits a md md.log2 (2 * md.log2) := Nat.mod_eq_of_lt hlt
+  have heq : ppMinPolyModV a md = ppMinPolyV (ppSeqBits a md md.log2 (2 * md.log2)) md.log2 := by
+    unfold ppMinPolyModV
+    dsimp only
+    rw [ppMinPolySeq_eq a md md.log2 hl, hmod]
+  obtain ⟨h1, h2, h3, h4⟩ := ppMinPolyV_spec (ppSeqBits a md md.log2 (2 * md.log2)) md.log2 hl
+  rw [hmod] at h3 h4
+  rw [← heq] at h1 h2 h3 h4
+  refine ⟨heq, hlt, ?_, h1, h2, h3, h4⟩
+  intro j hj
+  rw [ppSeqBits_testBit]
+  simp [hj]
+
+/-- for a reduced a (deg a < deg mod, the precondition `a < mod`), bit j of the sequence is the
+    constant term of a^{2l−j} mod mod (`cpow a k` = a^k in GF(2)[x]). -/
+theorem ppMinPolyModV_seq_pow (a md : Nat) (hl : 1 ≤ md.log2) (ha : a < 2 ^ md.log2) :
+    ∀ j, j < 2 * md.log2 → (ppSeqBits a md md.log2 (2 * md.log2)).testBit j
+      = decide (pmod (cpow a (2 * md.log2 - j)) md % 2 = 1) := by
+  intro j hj
+  have hmd : md ≠ 0 := by
+    intro h0; rw [h0] at hl; simp [Nat.log2_zero] at hl
+  rw [(ppMinPolyModV_spec a md hl).2.2.1 j hj, ppIter_pow hmd ha,
+    show 2 * md.log2 - 1 - j + 1 = 2 * md.log2 - j by omega]
+
+example : ppMinPolyModV 0b10 0b1011 = ppMinPolyV (ppSeqBits 0b10 0b1011 3 6) 3
+    ∧ ppMinPolyModV 0b10 0b1011 = 0b1011 := by decide +kernel
 
 end Bee2V.C05
